@@ -65,7 +65,7 @@ def byte_tables(F, rep, rule="C16.1"):
 
 def avx_kernels(F, rep, rule="C16.2", thorough=False):
     if "bitops_avx2::pack_32_bases" not in F.insts or "bitops_avx2::convert_bases" not in F.insts:
-        rep.violated(rule, "avx-kernels", "anchor-missing: bitops_avx2 kernels", witness={"kind": "anchor-missing"})
+        rep.inconclusive(rule, "avx-kernels", "role discovery: the crate-private bitops_avx2 kernels (convert_bases, pack_32_bases) were not found")
         return
     # ---- pack_32_bases: a pure permutation of the two low bits of every byte
     def fpack():
